@@ -4,8 +4,80 @@ Circuit::computeRows with the extracted model, exhaustive on a small grid + rand
 statement itself is re-checked column by column on the C++ output."""
 import json
 from tools import common
+from checks import circuit_sequences
 
 LEVEL = "proof"
+TURN = (2, 3, 6, 7)     # W, E, FW, FE: the placed outline has width and height exchanged
+
+
+def parse_cr(line):
+    v = [int(t) for t in line.split()[1:]]
+    p = 0
+    nr = v[p]; p += 1
+    rows = [tuple(v[p + 5 * i:p + 5 * i + 5]) for i in range(nr)]; p += 5 * nr
+    ne = v[p]; p += 1
+    extra = [tuple(v[p + 4 * i:p + 4 * i + 4]) for i in range(ne)]; p += 4 * ne
+    nc = v[p]; p += 1
+    cells = [tuple(v[p + 7 * i:p + 7 * i + 7]) for i in range(nc)]
+    return rows, extra, cells
+
+
+def row_verdict(row, obs, segs):
+    """the statement of C15 for one row, column by column (same as verdict() of harness/freespace.cpp)"""
+    for s in segs:
+        if s[2] != row[2] or s[3] != row[3]:
+            return "segment not full height"
+        if s[4] != row[4]:
+            return "orientation changed"
+        if s[0] >= s[1]:
+            return "empty segment"
+        if s[0] < row[0] or s[1] > row[1]:
+            return "segment outside the row"
+    bp = {row[0], row[1]}
+    for s in segs:
+        bp.update(s[:2])
+    for o in obs:
+        bp.update(o[:2])
+    for x in sorted(bp):
+        if x < row[0] or x >= row[1]:
+            continue
+        cover = sum(1 for s in segs if s[0] <= x < s[1])
+        if cover > 1:
+            return "segments overlap at column %d" % x
+        free = row[2] < row[3] and not any(o[0] < o[1] and o[2] < o[3] and o[0] <= x < o[1] and o[2] < row[3] and row[2] < o[3] for o in obs)
+        if free and not cover:
+            return "obstruction-free column %d of row %s is not covered" % (x, list(row[:4]))
+        if not free and cover:
+            return "a segment of row %s contains column %d, which an obstruction (fixed obstruction cell or extra obstacle) occupies" % (list(row[:4]), x)
+    return None
+
+
+def state_verdict(cr, rows_text):
+    """the statement of C15 evaluated on a dumped circuit state (CR line) and the segments computeRows returned for it"""
+    rows, extra, cells = parse_cr(cr)
+    obs = list(extra)
+    for (x, y, w, h, o, fx, ob) in cells:
+        if fx and ob:
+            pw, ph = (h, w) if o in TURN else (w, h)
+            obs.append((x, x + pw, y, y + ph))
+    try:
+        segs = [tuple(int(t) for t in s.split()) for s in rows_text.split(";") if s.strip()]
+        if any(len(s) != 5 for s in segs):
+            raise ValueError
+    except ValueError:
+        return "no usable result: " + rows_text[:80]
+    pos = 0
+    for row in rows:          # computeRows returns the segments row by row, left to right
+        mine = []
+        while pos < len(segs) and segs[pos][2:4] == row[2:4] and segs[pos][0] >= row[0] and segs[pos][1] <= row[1] and \
+                (not mine or segs[pos][0] >= mine[-1][1]):
+            mine.append(segs[pos]); pos += 1
+        why = row_verdict(row, obs, mine)
+        if why:
+            return why
+    if pos != len(segs):
+        return "segment %s does not belong to the rows in order" % (list(segs[pos]),)
+    return None
 
 
 def run(ctx):
@@ -25,6 +97,17 @@ def run(ctx):
     seeds = [ctx.seed] if ctx.quick else [ctx.seed, ctx.seed + 1000, ctx.seed + 2000]
     for s in seeds:
         lines += common.harness_gen(harness, ["rand", s, nrand // len(seeds)])
+    # sequence stream: one Circuit edited by the public setters and queried after every step; every (public state at that
+    # moment, answer) pair becomes an ordinary one-shot CR case (the model is a pure function of the state)
+    nseq = 1500 if ctx.quick else 60000
+    recs, anomalies, seqstats = [], [], {}
+    for s in seeds:
+        r, a, st = circuit_sequences.run_sequences(s, nseq // len(seeds), common.corpus("C15", ("SQ ",)) if s == seeds[0] else ())
+        recs += r; anomalies += a
+        for k, v in st.items():
+            seqstats[k] = seqstats.get(k, 0) + v
+    noneshot = len(lines)
+    lines += sorted(set(r.cr for r in recs))
     impl, model, errs = common.run_both([harness, "run"], [driver], lines)
     mism, ofail, nontriv = [], [], set()
     kinds = {"FS": 0, "CR": 0}
@@ -45,10 +128,45 @@ def run(ctx):
             bare = " ".join(toks[1:6])
             if res.strip() != bare and int(toks[2]) > int(toks[1]):
                 nontriv.add(l)
+    # the answers given inside the sequences, judged on the state they were given for
+    fresh = dict(zip(lines[noneshot:], zip(impl[noneshot:], model[noneshot:])))
+    seq_bad, seq_mism, seq_nontriv, seen = [], [], set(), set()
+    for r in recs:
+        if (r.cr, r.rows) in seen:
+            continue
+        seen.add((r.cr, r.rows))
+        fi, fm = fresh[r.cr]
+        why = state_verdict(r.cr, r.rows)
+        if why:
+            seq_bad.append((r, why, fi, fm))
+        if r.rows != fm.strip():
+            seq_mism.append((r, fi, fm))
+        if r.rows != ";".join("%d %d %d %d %d" % rw for rw in parse_cr(r.cr)[0] if rw[0] < rw[1] and rw[2] < rw[3]):
+            seq_nontriv.add(r.cr)
+
+    def seq_detail(r, fi, fm):
+        return {"case": r.case, "format": "see harness/circseq.cpp header", "after_step": r.step,
+                "steps_so_far": circuit_sequences.steps_text(r.case, r.step),
+                "query": {"q": "computeRows()", "x": "computeRows(extra obstacles)", "c": "computeRows() on a copy of the circuit",
+                          "m": "computeRows() on a copy that was edited on its own"}.get(r.kind, r.kind),
+                "public_state_at_that_moment": r.cr, "implementation_output": r.rows, "model_for_that_state": fm,
+                "fresh_circuit_with_the_same_state": fi}
+    for r, why, fi, fm in seq_bad[:3]:
+        d = seq_detail(r, fi, fm); d["why"] = why
+        ctx.violation("free row space computed by /repo after a sequence of public edits violates C15 for the circuit's state at that "
+                      "moment: " + why, d)
+    for case, text in anomalies[:3]:
+        ctx.violation("a sequence of public edits and computeRows/hpwl/report queries did not run through: " + text[:200],
+                      {"case": case, "format": "see harness/circseq.cpp header", "implementation_output": text[:400], "why": text[:200]})
+    if seq_mism and not seq_bad and not ofail:
+        r, fi, fm = seq_mism[0]
+        d = seq_detail(r, fi, fm); d["broken"] = "correspondence of coq/FreeSpace.v (theorems of Properties_C15.v), sequence stream"
+        ctx.violation("correspondence FreeSpace.v <-> Circuit::computeRows broken inside edit sequences (%d of %d answers differ from the "
+                      "model of the state they were given for); no input violating C15 found" % (len(seq_mism), len(seen)), d, found_input=False)
     for l, i, verd in ofail[:3]:
         ctx.violation("free row space computed by /repo violates C15: " + verd,
                       {"case": l, "format": "see harness/freespace.cpp header", "implementation_output": i, "why": verd})
-    if not ofail:
+    if not ofail and not seq_bad and not anomalies:
         if mism:
             ctx.violation("correspondence FreeSpace.v <-> Row::freespace/Circuit::computeRows broken (%d of %d cases differ); "
                           "no input violating C15 found" % (len(mism), len(lines)),
@@ -58,16 +176,28 @@ def run(ctx):
             ctx.violation("proof obligations of Properties_C15.v do not check", {"broken": "Properties_C15.v", "detail": proof}, found_input=False)
     cov = dict(proof)
     cov.update({"trusted_base": common.TRUSTED_BASE + ["boost::polygon is not modelled: FreeSpace.v is its contract"],
-                "evaluations": len(lines), "distinct_nontrivial": len(nontriv),
+                "evaluations": len(lines) + len(seen), "distinct_nontrivial": len(nontriv) + len(seq_nontriv),
                 "rule": "exhaustive grid: rows [0,w)x[0,h), w<=%d, h<=%d, every ordered selection of up to %d obstacles with corners on the grid "
                         "[-1,w+1]x[-1,h+1] (degenerate ones included); random: Row::freespace and Circuit::computeRows (extra obstacles, cells with all "
-                        "fixed/obstruction flag combinations, 8 orientations) up to scale 2^18. non-trivial = the obstacles change the row; distinct "
-                        "= distinct case lines" % grid,
+                        "fixed/obstruction flag combinations, 8 orientations) up to scale 2^18. sequences: ONE Circuit (1-4 stacked rows, 1-6 cells, 0-3 nets, "
+                        "0-2 extra obstacles, scale up to 2^18) edited by 3-12 steps drawn from the real public setters setCellX/Y/Width/Height/"
+                        "Orientation (one cell or all), setCellIsFixed/setCellIsObstruction (one cell or all; set, clear, toggle), setSolution, setRows "
+                        "(edit/drop/add a row), setupRows, addNet, setNets, copy assignment, in random order with repetition; after every step (15 %% of "
+                        "the steps deliberately without a query) computeRows(), hpwl(), optionally report() before and computeRows(extra), every query "
+                        "asked twice on the same state (idempotence), optionally on a copy of the circuit and on a copy edited on its own; each answer "
+                        "is paired with the public state read through the getters at that moment and judged as a one-shot CR case: equality with the "
+                        "model of that state, the column-by-column statement on that state, and a freshly built circuit with that state. non-trivial "
+                        "= the obstacles change the row(s); distinct = distinct case lines (sequences: distinct (state, answer) pairs)" % grid,
                 "exhaustive": True, "grid_cases": ngrid, "kinds": kinds,
-                "samples": [lines[ngrid // 2], lines[ngrid + 3], lines[-1]],
-                "model_vs_impl_differences": len(mism), "impl_outputs_violating_statement": len(ofail)})
+                "samples": [lines[ngrid // 2], lines[ngrid + 3], lines[noneshot - 1]] + ([recs[-1].case] if recs else []),
+                "sequence_stream": dict(seqstats, distinct_state_answer_pairs=len(seen), nontrivial_states=len(seq_nontriv),
+                                        answers_differing_from_model=len(seq_mism), answers_violating_statement=len(seq_bad),
+                                        steps_not_run_through=len(anomalies)),
+                "model_vs_impl_differences": len(mism) + len(seq_mism), "impl_outputs_violating_statement": len(ofail) + len(seq_bad) + len(anomalies)})
     return ctx.finish(LEVEL, cov, ["inverted rectangles (minX>maxX) are outside the domain (a placement of non-negative size is never inverted)",
-                                   "model tied to the code by exact comparison on the cases of this run"])
+                                   "model tied to the code by exact comparison on the cases of this run",
+                                   "sequence stream: the circuit's state is what its public getters return (nets: what the harness itself set, "
+                                   "cross-checked with nbNets/nbPinsNet/pinCell); rows of a sequence are disjoint in y"])
 
 
 def replay(ctx, path):
@@ -75,6 +205,28 @@ def replay(ctx, path):
     case = r.get("case") or r["first_difference"]["case"]
     harness = common.build_harness("freespace")
     driver = common.build_driver()
+    if case.startswith("SQ "):
+        recs, anomalies, _ = circuit_sequences.run_sequences(0, 0, [case])
+        crs = sorted(set(x.cr for x in recs))
+        impl, model, _ = common.run_both([harness, "run"], [driver], crs)
+        fresh = dict(zip(crs, zip(impl, model)))
+        print("case :", case)
+        for t in circuit_sequences.steps_text(case):
+            print("  step", t)
+        bad = bool(anomalies)
+        for c, text in anomalies:
+            print("NOT RUN THROUGH:", text[:300])
+        for x in recs:
+            why = state_verdict(x.cr, x.rows)
+            fi, fm = fresh[x.cr]
+            if why or x.rows != fm.strip():
+                bad = True
+                print("after step %d (%s): state %s" % (x.step, x.kind, x.cr))
+                print("  impl :", x.rows)
+                print("  model:", fm)
+                print("  fresh:", fi)
+                print("  statement:", why)
+        return 1 if bad else 0
     impl, model, _ = common.run_both([harness, "run"], [driver], [case])
     print("case :", case)
     print("impl :", impl[0])
